@@ -11,6 +11,7 @@ type Spec struct {
 	Run              string // -test.run regexp
 	Race             bool
 	RaceViolation    *regexp.Regexp // a race report matching this is a violation (see DESIGN §2.6)
+	RaceOnTopFrames  bool           // match RaceViolation against the two accessing functions only, not against callers further up
 	QuickShards      int
 	ThoroughShards   int
 	QuickWatchdog    time.Duration
@@ -32,10 +33,10 @@ type Spec struct {
 	ExtraRace   bool
 	ExtraShards int
 	ExtraEngine string // engine of the extra pass when it differs from Engine
-	LevelText        string
-	LevelNote        string
-	Technique        string
-	DesignRef        string
+	LevelText   string
+	LevelNote   string
+	Technique   string
+	DesignRef   string
 }
 
 func (s Spec) memKB() int {
@@ -72,13 +73,13 @@ var specs = map[string]Spec{
 	"C01": {
 		Engine: "routesim", Run: "^TestRoute$", Race: true,
 		QuickShards: 16, ThoroughShards: 16, QuickWatchdog: 8 * time.Minute, ThoroughWatchdog: 60 * time.Minute,
-		MaxProcs: []int{16, 4, 2, 1},
-		Level:     "exploration",
-		LevelText: "The real routing handlers (sender, receiver, shard manager, ring) run between fake Temporal shards in virtual time under generated workloads (shard-count pairs, batch shapes, idle/slow/late/never-acking/non-reading targets, late connections, probe-induced pre-emption); an online oracle over the boundary event log asserts at every acknowledgement sent to a source that every received task below it was confirmed by its target stream. Sampling of interleavings, not enumeration; -race on.",
-		LevelNote: "Trusted: fake Temporal peers and the in-memory gRPC stream model (small, written from the server sources, cross-checked over real gRPC by the wire engine); the oracle sees only boundary events.",
-		Technique: "runtime monitor: online trace oracle (ack-implies-confirmed) over recorded boundary events of the real handlers, virtual-time stress with probe-induced delays, race detector",
-		DesignRef: "DESIGN.md §4 C01",
-		Rule:      "scenarios generated from VERIF_SEED (fixed list: shard-count pairs x batch scripts x target behaviours); a case is non-trivial when at least one acknowledgement above the first task id was checked or a task was delivered; distinct = distinct interleaving signatures (hash of the (kind,stream) sequence of boundary events)",
+		MaxProcs:    []int{16, 4, 2, 1},
+		Level:       "exploration",
+		LevelText:   "The real routing handlers (sender, receiver, shard manager, ring) run between fake Temporal shards in virtual time under generated workloads (shard-count pairs, batch shapes, idle/slow/late/never-acking/non-reading targets, late connections, probe-induced pre-emption); an online oracle over the boundary event log asserts at every acknowledgement sent to a source that every received task below it was confirmed by its target stream. Sampling of interleavings, not enumeration; -race on.",
+		LevelNote:   "Trusted: fake Temporal peers and the in-memory gRPC stream model (small, written from the server sources, cross-checked over real gRPC by the wire engine); the oracle sees only boundary events.",
+		Technique:   "runtime monitor: online trace oracle (ack-implies-confirmed) over recorded boundary events of the real handlers, virtual-time stress with probe-induced delays, race detector",
+		DesignRef:   "DESIGN.md §4 C01",
+		Rule:        "scenarios generated from VERIF_SEED (fixed list: shard-count pairs x batch scripts x target behaviours); a case is non-trivial when at least one acknowledgement above the first task id was checked or a task was delivered; distinct = distinct interleaving signatures (hash of the (kind,stream) sequence of boundary events)",
 		Assumptions: routeAssumptions,
 		QuickFloors: map[string]int64{"src_acks_nonvacuous": 100, "ev_TGT_RECV": 1000},
 		MaxSamples:  2,
@@ -87,13 +88,13 @@ var specs = map[string]Spec{
 		ExtraEngine: "wire", ExtraRun: "^TestRoutingWire$", ExtraRace: true, ExtraShards: 8,
 		Engine: "routesim", Run: "^TestRoute$", Race: true,
 		QuickShards: 16, ThoroughShards: 16, QuickWatchdog: 8 * time.Minute, ThoroughWatchdog: 60 * time.Minute,
-		MaxProcs: []int{16, 4, 2, 1},
-		Level:     "exploration",
-		LevelText: "Same executions as C01 with the delivery oracle: every task marker handed over by a source must appear exactly once, on the stream of the shard that owns its workflow (harness-side farm32), payload equal after restoring the two id fields, in source order per (source,target); per target stream ids and watermarks must satisfy what Temporal's task tracker requires (a tracker model in the fake target additionally reports every message or task it would drop); at quiescence of fair scenarios every task must have been delivered.",
-		LevelNote: "An extra pass (wire engine) runs routing mode through the assembled ClusterConnection over real gRPC with nL != nR: it shows which routing parameters each direction was given (owner computed under the right cluster's shard count, peer shard count reported by DescribeCluster) and cross-checks the in-memory stream model. Trusted: fake peers, stream model, the harness's own owner computation (farm.Fingerprint32 of namespaceID_workflowID mod n + 1). Tasks without RawTaskInfo are outside the domain (the 1.31 sender always fills it).",
-		Technique: "runtime monitor: exactly-once / ownership / ordering / well-formedness oracle over recorded boundary events + Temporal task-tracker reference model at the fake target",
-		DesignRef: "DESIGN.md §4 C02",
-		Rule:      "as C01; non-trivial = at least one task delivered; distinct = distinct interleaving signatures",
+		MaxProcs:    []int{16, 4, 2, 1},
+		Level:       "exploration",
+		LevelText:   "Same executions as C01 with the delivery oracle: every task marker handed over by a source must appear exactly once, on the stream of the shard that owns its workflow (harness-side farm32), payload equal after restoring the two id fields, in source order per (source,target); per target stream ids and watermarks must satisfy what Temporal's task tracker requires (a tracker model in the fake target additionally reports every message or task it would drop); at quiescence of fair scenarios every task must have been delivered.",
+		LevelNote:   "An extra pass (wire engine) runs routing mode through the assembled ClusterConnection over real gRPC with nL != nR: it shows which routing parameters each direction was given (owner computed under the right cluster's shard count, peer shard count reported by DescribeCluster) and cross-checks the in-memory stream model. Trusted: fake peers, stream model, the harness's own owner computation (farm.Fingerprint32 of namespaceID_workflowID mod n + 1). Tasks without RawTaskInfo are outside the domain (the 1.31 sender always fills it).",
+		Technique:   "runtime monitor: exactly-once / ownership / ordering / well-formedness oracle over recorded boundary events + Temporal task-tracker reference model at the fake target",
+		DesignRef:   "DESIGN.md §4 C02",
+		Rule:        "as C01; non-trivial = at least one task delivered; distinct = distinct interleaving signatures",
 		Assumptions: routeAssumptions,
 		QuickFloors: map[string]int64{"tasks_delivered": 1000, "ev_TGT_RECV": 1000},
 		MaxSamples:  2,
@@ -101,13 +102,13 @@ var specs = map[string]Spec{
 	"C03": {
 		Engine: "routesim", Run: "^TestRoute$", Race: true,
 		QuickShards: 16, ThoroughShards: 16, QuickWatchdog: 8 * time.Minute, ThoroughWatchdog: 60 * time.Minute,
-		MaxProcs: []int{16, 4, 2, 1},
-		Level:     "exploration",
-		LevelText: "Same executions; safety oracle online (acknowledgements per source-stream incarnation never decrease, never exceed the largest exclusive high watermark handed over so far) and bounded progress on the virtual clock for fair scenarios: after the last confirmation the source must receive an acknowledgement equal to its final watermark within 2*P+12 virtual seconds (P = the source's watermark period), else the case is a violation with the event log as witness.",
-		LevelNote: "'Eventually' is decided only as bounded progress in virtual time under the fake peers' fairness (targets ack every period, source repeats its watermark); an unbounded eventuality is out of reach of any finite run.",
-		Technique: "runtime monitor: monotonicity/bound oracle online + bounded-liveness check on virtual time (testing/synctest) over recorded boundary events",
-		DesignRef: "DESIGN.md §4 C03",
-		Rule:      "as C01; non-trivial = at least one acknowledgement above the first task id checked; distinct = distinct interleaving signatures",
+		MaxProcs:    []int{16, 4, 2, 1},
+		Level:       "exploration",
+		LevelText:   "Same executions; safety oracle online (acknowledgements per source-stream incarnation never decrease, never exceed the largest exclusive high watermark handed over so far) and bounded progress on the virtual clock for fair scenarios: after the last confirmation the source must receive an acknowledgement equal to its final watermark within 2*P+12 virtual seconds (P = the source's watermark period), else the case is a violation with the event log as witness.",
+		LevelNote:   "'Eventually' is decided only as bounded progress in virtual time under the fake peers' fairness (targets ack every period, source repeats its watermark); an unbounded eventuality is out of reach of any finite run.",
+		Technique:   "runtime monitor: monotonicity/bound oracle online + bounded-liveness check on virtual time (testing/synctest) over recorded boundary events",
+		DesignRef:   "DESIGN.md §4 C03",
+		Rule:        "as C01; non-trivial = at least one acknowledgement above the first task id checked; distinct = distinct interleaving signatures",
 		Assumptions: routeAssumptions,
 		QuickFloors: map[string]int64{"src_acks_checked": 1000},
 		MaxSamples:  2,
@@ -115,13 +116,13 @@ var specs = map[string]Spec{
 	"C04": {
 		Engine: "routesim", Run: "^TestFault$", Race: true,
 		QuickShards: 16, ThoroughShards: 16, QuickWatchdog: 10 * time.Minute, ThoroughWatchdog: 90 * time.Minute,
-		MaxProcs: []int{16, 4, 2, 1},
-		Level:     "fault_enumeration",
-		LevelText: "For each base scenario the run is repeated with one stream broken right after each of its boundary events (every shard, every event kind, every position; both fault sides: the initiating cluster's connection dies / the proxy's reverse stream to the source fails), with reconnect delays 0 / 0.5 / 3 s, and in the thorough tier with a second break during recovery; sources resume from the last acknowledgement they received. The C01 oracle runs across incarnations: an acknowledgement may never pass a task no target incarnation confirmed.",
-		LevelNote: "Fault positions are logical (after the k-th event of a kind on a stream) and enumerated; the thread interleaving around each position is sampled. Fake peers as in C01. Breaks of intra-proxy streams between instances are not modelled.",
-		Technique: "runtime monitor + fault injection: enumerated stream-break positions on the real handlers in virtual time, online ack-implies-confirmed oracle across stream incarnations",
-		DesignRef: "DESIGN.md §4 C04",
-		Rule:      "cases = base scenarios x (shard, event kind, position, fault side, reconnect delay) [+ sampled double faults in thorough]; non-trivial = the planned fault actually fired; distinct = distinct interleaving signatures",
+		MaxProcs:    []int{16, 4, 2, 1},
+		Level:       "fault_enumeration",
+		LevelText:   "For each base scenario the run is repeated with one stream broken right after each of its boundary events (every shard, every event kind, every position; both fault sides: the initiating cluster's connection dies / the proxy's reverse stream to the source fails), with reconnect delays 0 / 0.5 / 3 s, and in the thorough tier with a second break during recovery; sources resume from the last acknowledgement they received. The C01 oracle runs across incarnations: an acknowledgement may never pass a task no target incarnation confirmed.",
+		LevelNote:   "Fault positions are logical (after the k-th event of a kind on a stream) and enumerated; the thread interleaving around each position is sampled. Fake peers as in C01. Breaks of intra-proxy streams between instances are not modelled.",
+		Technique:   "runtime monitor + fault injection: enumerated stream-break positions on the real handlers in virtual time, online ack-implies-confirmed oracle across stream incarnations",
+		DesignRef:   "DESIGN.md §4 C04",
+		Rule:        "cases = base scenarios x (shard, event kind, position, fault side, reconnect delay) [+ sampled double faults in thorough]; non-trivial = the planned fault actually fired; distinct = distinct interleaving signatures",
 		Assumptions: routeAssumptions,
 		QuickFloors: map[string]int64{"faults_fired": 300, "src_acks_checked": 1000},
 		MaxSamples:  1,
@@ -130,13 +131,13 @@ var specs = map[string]Spec{
 		ExtraEngine: "wire", ExtraRun: "^TestForwardWire$", ExtraRace: true, ExtraShards: 5,
 		Engine: "fwdsim", Run: "^TestForward$", Race: true,
 		QuickShards: 16, ThoroughShards: 16, QuickWatchdog: 8 * time.Minute, ThoroughWatchdog: 60 * time.Minute,
-		MaxProcs: []int{16, 4, 2, 1},
-		Level:     "fault_enumeration",
-		LevelText: "The real pass-through handler (StreamForwarder, default and LCM modes) runs between an in-memory initiator and an in-memory source in virtual time; for every position of six two-direction scripts of 12 messages and every way either side can end (clean EOF, error status, half-close, cancel, disconnect, failing Send in either direction, unknown message kind from either side) under four progress skews, the oracle checks prefix-faithful relay in both directions, completeness before clean endings, that the handler returns within a bound on the virtual clock, that the source side was half-closed or cancelled, and that no goroutine of the proxy is left (census of stacks).",
-		LevelNote: "Trusted: the in-memory gRPC stream model (status on handler return, context cancellation on return, io.EOF on Send to a finished stream, bounded window). Proxy shutdown (lifetime) is not observed by the forwarder itself: an extra pass of the wire engine drives a pass-through stream through the assembled ClusterConnection over real gRPC and ends it five ways (source EOF, source error, initiator cancel, initiator half-close, proxy shutdown), checking faithful relay and that both real peers observe the end - which also cross-checks the in-memory stream model.",
-		Technique: "runtime monitor + fault injection: enumerated ending kinds x positions on the real forwarder in virtual time; relay-prefix and termination oracles; goroutine census; race detector",
-		DesignRef: "DESIGN.md §4 C06",
-		Rule:      "cases = mode x script x ending kind x position x progress skew (quick: all positions for the lockstep skew and every second one for the others; thorough: all, plus 20k random scripts); distinct = distinct (mode,script,ending,position,skew) tuples, all non-trivial (each relays or ends a stream)",
+		MaxProcs:    []int{16, 4, 2, 1},
+		Level:       "fault_enumeration",
+		LevelText:   "The real pass-through handler (StreamForwarder, default and LCM modes) runs between an in-memory initiator and an in-memory source in virtual time; for every position of six two-direction scripts of 12 messages and every way either side can end (clean EOF, error status, half-close, cancel, disconnect, failing Send in either direction, unknown message kind from either side) under four progress skews, the oracle checks prefix-faithful relay in both directions, completeness before clean endings, that the handler returns within a bound on the virtual clock, that the source side was half-closed or cancelled, and that no goroutine of the proxy is left (census of stacks).",
+		LevelNote:   "Trusted: the in-memory gRPC stream model (status on handler return, context cancellation on return, io.EOF on Send to a finished stream, bounded window). Proxy shutdown (lifetime) is not observed by the forwarder itself: an extra pass of the wire engine drives a pass-through stream through the assembled ClusterConnection over real gRPC and ends it five ways (source EOF, source error, initiator cancel, initiator half-close, proxy shutdown), checking faithful relay and that both real peers observe the end - which also cross-checks the in-memory stream model.",
+		Technique:   "runtime monitor + fault injection: enumerated ending kinds x positions on the real forwarder in virtual time; relay-prefix and termination oracles; goroutine census; race detector",
+		DesignRef:   "DESIGN.md §4 C06",
+		Rule:        "cases = mode x script x ending kind x position x progress skew (quick: all positions for the lockstep skew and every second one for the others; thorough: all, plus 20k random scripts); distinct = distinct (mode,script,ending,position,skew) tuples, all non-trivial (each relays or ends a stream)",
 		Assumptions: []string{"in-memory stream pair with gRPC semantics; every message deep-copied at the boundary", "virtual time (testing/synctest); consumers may be slow but never stop reading for ever"},
 		QuickFloors: map[string]int64{"positions": 1500, "handler_returned": 1000, "wire_endings": 5},
 		MaxSamples:  2,
@@ -145,13 +146,13 @@ var specs = map[string]Spec{
 		ExtraEngine: "wire", ExtraRun: "^TestAssembly$", ExtraShards: 8,
 		Engine: "fwdsim", Run: "^TestLCM$", Race: false,
 		QuickShards: 16, ThoroughShards: 16, QuickWatchdog: 8 * time.Minute, ThoroughWatchdog: 60 * time.Minute,
-		Level:     "exploration",
-		LevelText: "The real handler in LCM mode (parameters built with the repository's common.LCM exactly as NewClusterConnection builds them, both directions) answers DescribeCluster and serves one stream per LCM shard id; the forwarded metadata recorded by a fake serving cluster is compared with independent 64-bit arithmetic: reported count = lcm, exactly one outgoing stream, server shard = ((s-1) mod count)+1, initiator shard = s, cluster ids and other metadata preserved, no panic, nothing mapped outside 1..count; workflow-hash consistency on random ids with farm32 computed by the harness. All pairs in 1..12 (thorough 1..24) with every shard id are exhaustive; powers of two and mixed composites up to 16384 use boundary and random shard ids.",
-		LevelNote: "The direction wiring inside NewClusterConnection (which server gets which TargetShardCount) and the DescribeCluster override in the assembled servers are observed by the wire engine, not here. Trusted: harness arithmetic, fake serving cluster.",
-		Technique: "runtime monitor: differential check of the real LCM handler's observable routing (recorded outgoing stream metadata, DescribeCluster answer) against an independent arithmetic oracle, bounded-exhaustive + boundary/random inputs",
-		DesignRef: "DESIGN.md §4 C07",
-		Rule:      "a case = one (local, remote, direction) block: DescribeCluster + one stream per chosen LCM shard id (+4 ids just outside the range) + 400 random workflow ids; distinct = distinct (local,remote,direction) triples; all non-trivial",
-		Exhaustive: "all (local,remote) pairs in 1..12 (quick) / 1..24 (thorough), both directions, every LCM shard id",
+		Level:       "exploration",
+		LevelText:   "The real handler in LCM mode (parameters built with the repository's common.LCM exactly as NewClusterConnection builds them, both directions) answers DescribeCluster and serves one stream per LCM shard id; the forwarded metadata recorded by a fake serving cluster is compared with independent 64-bit arithmetic: reported count = lcm, exactly one outgoing stream, server shard = ((s-1) mod count)+1, initiator shard = s, cluster ids and other metadata preserved, no panic, nothing mapped outside 1..count; workflow-hash consistency on random ids with farm32 computed by the harness. All pairs in 1..12 (thorough 1..24) with every shard id are exhaustive; powers of two and mixed composites up to 16384 use boundary and random shard ids.",
+		LevelNote:   "The direction wiring inside NewClusterConnection (which server gets which TargetShardCount) and the DescribeCluster override in the assembled servers are observed by the wire engine, not here. Trusted: harness arithmetic, fake serving cluster.",
+		Technique:   "runtime monitor: differential check of the real LCM handler's observable routing (recorded outgoing stream metadata, DescribeCluster answer) against an independent arithmetic oracle, bounded-exhaustive + boundary/random inputs",
+		DesignRef:   "DESIGN.md §4 C07",
+		Rule:        "a case = one (local, remote, direction) block: DescribeCluster + one stream per chosen LCM shard id (+4 ids just outside the range) + 400 random workflow ids; distinct = distinct (local,remote,direction) triples; all non-trivial",
+		Exhaustive:  "all (local,remote) pairs in 1..12 (quick) / 1..24 (thorough), both directions, every LCM shard id",
 		Assumptions: []string{"fake serving cluster records the outgoing stream metadata; in-memory streams; virtual time"},
 		QuickFloors: map[string]int64{"streams": 8000, "exhaustive_blocks_completed": 288},
 		MaxSamples:  2,
@@ -159,30 +160,30 @@ var specs = map[string]Spec{
 	"C20": {
 		Engine: "fwdsim", Run: "^TestMeta$", Race: false, ExtraRun: "^TestMetaConcurrent$", ExtraRace: true, ExtraShards: 16,
 		RaceViolation: regexp.MustCompile(`ReplicationStreamObserver\)\.(ReportStreamValue|PrintActiveStreams)`),
-		QuickShards: 16, ThoroughShards: 16, QuickWatchdog: 10 * time.Minute, ThoroughWatchdog: 60 * time.Minute,
+		QuickShards:   16, ThoroughShards: 16, QuickWatchdog: 10 * time.Minute, ThoroughWatchdog: 60 * time.Minute,
 		MemGB: 12, CaseTimeoutS: 60,
 		HangViolation: regexp.MustCompile(`ReplicationStreamObserver\)\.ReportStreamValue`),
-		Level:     "exploration",
-		LevelText: "The real stream handler in all three modes, with the real ReplicationStreamObserver wired as createServer wires it, is opened with hostile stream-open metadata (each of the four ids at int32 boundary values, values that wrap in the decoder, non-numeric / missing / duplicated headers, pairs of hostile ids, seeded random int32s) in a child process under ulimit -v; then a well-formed stream must be served end to end on the same server and the observer's counters must return to zero. A hostile open must be served or rejected - a process death is attributed to the case by the driver; a handler parked on the observer's lock (goroutine dump) is the wedge the property names.",
-		LevelNote: "Real time (no bubble): a wedged mutex would keep a virtual clock from advancing. Verdicts are state-based (outgoing stream opened, handler returned, goroutine parked in the observer); a plain timeout without the forbidden state is inconclusive. The assembled gRPC servers in front of the handler are covered by the wire engine.",
-		Technique: "runtime monitor: hostile-input stress of the real handler + observer in child processes (ulimit -v), follow-up liveness probe, counter-conservation check, goroutine-dump inspection for the wedged state",
-		DesignRef: "DESIGN.md §4 C20",
-		Rule:      "cases = mode x (id position x boundary/wrapping/malformed value | pairs | random int32); each case = hostile open + follow-up well-formed stream + conservation check; distinct = distinct (mode, metadata) combinations; all non-trivial",
-		Assumptions: []string{"in-memory streams; fake serving cluster accepts every shard id", "ids up to 2^28 (largest LCM of two supported shard counts) may legitimately allocate bookkeeping; the child runs under ulimit -v 12 GB"},
-		QuickFloors: map[string]int64{"hostile_opens": 700, "follow_up_served_end_to_end": 600, "concurrent_rounds_conserved": 1000},
-		MaxSamples:  3,
+		Level:         "exploration",
+		LevelText:     "The real stream handler in all three modes, with the real ReplicationStreamObserver wired as createServer wires it, is opened with hostile stream-open metadata (each of the four ids at int32 boundary values, values that wrap in the decoder, non-numeric / missing / duplicated headers, pairs of hostile ids, seeded random int32s) in a child process under ulimit -v; then a well-formed stream must be served end to end on the same server and the observer's counters must return to zero. A hostile open must be served or rejected - a process death is attributed to the case by the driver; a handler parked on the observer's lock (goroutine dump) is the wedge the property names.",
+		LevelNote:     "Real time (no bubble): a wedged mutex would keep a virtual clock from advancing. Verdicts are state-based (outgoing stream opened, handler returned, goroutine parked in the observer); a plain timeout without the forbidden state is inconclusive. The assembled gRPC servers in front of the handler are covered by the wire engine.",
+		Technique:     "runtime monitor: hostile-input stress of the real handler + observer in child processes (ulimit -v), follow-up liveness probe, counter-conservation check, goroutine-dump inspection for the wedged state",
+		DesignRef:     "DESIGN.md §4 C20",
+		Rule:          "cases = mode x (id position x boundary/wrapping/malformed value | pairs | random int32); each case = hostile open + follow-up well-formed stream + conservation check; distinct = distinct (mode, metadata) combinations; all non-trivial",
+		Assumptions:   []string{"in-memory streams; fake serving cluster accepts every shard id", "ids up to 2^28 (largest LCM of two supported shard counts) may legitimately allocate bookkeeping; the child runs under ulimit -v 12 GB"},
+		QuickFloors:   map[string]int64{"hostile_opens": 700, "follow_up_served_end_to_end": 600, "concurrent_rounds_conserved": 1000},
+		MaxSamples:    3,
 	},
 	"C08": {
 		Engine: "routesim", Run: "^(TestLifecycle|TestLifecycleStress)$", Race: true,
 		RaceViolation: regexp.MustCompile(`shardManagerImpl\)\.(addLocalShard|removeLocalShard|UnregisterShard|RegisterShard|GetLocalShards|SetRemoteSendChan|RemoveRemoteSendChan|GetRemoteSendChan|SetLocalAckChan|RemoveLocalAckChan|forceRemoveLocalAckChan|GetLocalAckChan|RegisterActiveReceiver|UnregisterActiveReceiver|GetActiveReceiver|SetLocalReceiverCancelFunc|RemoveLocalReceiverCancelFunc|GetLocalReceiverCancelFunc|NodeMeta)\(\)[^\n]*\n[^\n]*\n(?s:.*)runtime\.map`),
-		QuickShards: 16, ThoroughShards: 16, QuickWatchdog: 10 * time.Minute, ThoroughWatchdog: 90 * time.Minute,
-		MaxProcs: []int{16, 16, 8, 4},
-		Level:     "exploration",
-		LevelText: "Successive incarnations of one shard's stream are opened against the real routing handlers with every kind of overlap (while the old one is healthy, right after its cancellation, while its unwinding is parked by the probe logger at each of its cleanup log points, after it returned; chains of 2-4 incarnations) in virtual time, then in real threads under -race (old incarnation's unregister against the new one's register, and whole-handler overlap rounds). At quiescence with the newest incarnation live the oracle reads the registry through the exported API (ownership, delivery channel, ack channel, receiver cancel function, active receiver), sends a marked probe task and a probe ack through the shard manager and checks they reach the newest stream / a live consumer, and checks that a freshly registered target gets a watermark replay from every live receiver; after all streams end nothing may remain registered and no goroutine of the proxy may be left. A process death is attributed to the running case; race reports on the shard/channel maps are violations.",
-		LevelNote: "Probe parking reaches only the code's own log points; lock windows without a log call are reached by real-thread stress with some probability per round (reported as rounds run), not by construction. Single proxy instance (intra-proxy routing of C08's clauses is not modelled).",
-		Technique: "runtime monitor: registry-state and behavioural-probe oracles at quiescent points of overlapping stream incarnations (virtual-time probe parking + real-thread stress), goroutine census, race detector on the registration maps",
-		DesignRef: "DESIGN.md §4 C08",
-		Rule:      "cases = overlap kind x timing (single re-opens, all kinds) + seeded chains of 2-3 re-opens + per-child stress blocks; distinct = distinct (overlap sequence, timings) tuples; all non-trivial (each opens at least two incarnations)",
+		QuickShards:   16, ThoroughShards: 16, QuickWatchdog: 10 * time.Minute, ThoroughWatchdog: 90 * time.Minute,
+		MaxProcs:    []int{16, 16, 8, 4},
+		Level:       "exploration",
+		LevelText:   "Successive incarnations of one shard's stream are opened against the real routing handlers with every kind of overlap (while the old one is healthy, right after its cancellation, while its unwinding is parked by the probe logger at each of its cleanup log points, after it returned; chains of 2-4 incarnations) in virtual time, then in real threads under -race (old incarnation's unregister against the new one's register, and whole-handler overlap rounds). At quiescence with the newest incarnation live the oracle reads the registry through the exported API (ownership, delivery channel, ack channel, receiver cancel function, active receiver), sends a marked probe task and a probe ack through the shard manager and checks they reach the newest stream / a live consumer, and checks that a freshly registered target gets a watermark replay from every live receiver; after all streams end nothing may remain registered and no goroutine of the proxy may be left. A process death is attributed to the running case; race reports on the shard/channel maps are violations.",
+		LevelNote:   "Probe parking reaches only the code's own log points; lock windows without a log call are reached by real-thread stress with some probability per round (reported as rounds run), not by construction. Single proxy instance (intra-proxy routing of C08's clauses is not modelled).",
+		Technique:   "runtime monitor: registry-state and behavioural-probe oracles at quiescent points of overlapping stream incarnations (virtual-time probe parking + real-thread stress), goroutine census, race detector on the registration maps",
+		DesignRef:   "DESIGN.md §4 C08",
+		Rule:        "cases = overlap kind x timing (single re-opens, all kinds) + seeded chains of 2-3 re-opens + per-child stress blocks; distinct = distinct (overlap sequence, timings) tuples; all non-trivial (each opens at least two incarnations)",
 		Assumptions: routeAssumptions,
 		QuickFloors: map[string]int64{"overlap_cases": 150, "register_race_rounds": 50000, "overlap_rounds": 1000},
 		MaxSamples:  2,
@@ -191,13 +192,13 @@ var specs = map[string]Spec{
 		ExtraEngine: "wire", ExtraRun: "^TestAssembly$", ExtraShards: 2,
 		Engine: "xlate", Run: "^TestNamespace$", Race: false,
 		QuickShards: 16, ThoroughShards: 16, QuickWatchdog: 8 * time.Minute, ThoroughWatchdog: 60 * time.Minute,
-		Level:     "exploration",
-		LevelText: "The real namespace translator (request and response side) runs on one minimal message per structural path to a namespace-name field for every request/response/stream message type of both services (paths enumerated from the protobuf descriptors, each message type at most twice per path), on every history-event path placed inside every history-event blob site (alone, between and before plain events), and on random populated messages; the result is compared with an independent descriptor-driven translator that has no skip list and no Go-field-name table. Any message on which the implementation's shortcut changes the outcome differs from the oracle by construction.",
-		LevelNote: "Trusted: the oracle's definition of a namespace-name field (string fields named namespace / workflow_namespace / parent_workflow_namespace and NamespaceInfo.name; 142 of the 180 *namespace* string fields in the closure, the rest are ids) and the reviewed table of 11 history-event blob sites. The assembled interceptor chain is covered by the wire engine.",
-		Technique: "runtime monitor: differential execution of the real translator against an independent protoreflect oracle over descriptor-enumerated paths + random messages",
-		DesignRef: "DESIGN.md §4 C12",
-		Rule:      "cases = one per root message type (all its paths and blob x event-path placements) + blocks of 50 random populated messages; distinct = distinct (root, path) and (root, blob path, event path) pairs; all non-trivial",
-		Exhaustive: "every structural path (recursion bound 2) to a namespace-name field in every request/response type of WorkflowService and AdminService, and every (blob site path x event path) pair",
+		Level:       "exploration",
+		LevelText:   "The real namespace translator (request and response side) runs on one minimal message per structural path to a namespace-name field for every request/response/stream message type of both services (paths enumerated from the protobuf descriptors, each message type at most twice per path), on every history-event path placed inside every history-event blob site (alone, between and before plain events), and on random populated messages; the result is compared with an independent descriptor-driven translator that has no skip list and no Go-field-name table. Any message on which the implementation's shortcut changes the outcome differs from the oracle by construction.",
+		LevelNote:   "Trusted: the oracle's definition of a namespace-name field (string fields named namespace / workflow_namespace / parent_workflow_namespace and NamespaceInfo.name; 142 of the 180 *namespace* string fields in the closure, the rest are ids) and the reviewed table of 11 history-event blob sites. The assembled interceptor chain is covered by the wire engine.",
+		Technique:   "runtime monitor: differential execution of the real translator against an independent protoreflect oracle over descriptor-enumerated paths + random messages",
+		DesignRef:   "DESIGN.md §4 C12",
+		Rule:        "cases = one per root message type (all its paths and blob x event-path placements) + blocks of 50 random populated messages; distinct = distinct (root, path) and (root, blob path, event path) pairs; all non-trivial",
+		Exhaustive:  "every structural path (recursion bound 2) to a namespace-name field in every request/response type of WorkflowService and AdminService, and every (blob site path x event path) pair",
 		Assumptions: []string{"events inside blobs carry an event_type that agrees with their attributes (as real histories do)"},
 		QuickFloors: map[string]int64{"path_cases": 1000, "blob_event_cases": 1000, "random_messages": 2000},
 		MaxSamples:  2,
@@ -206,13 +207,13 @@ var specs = map[string]Spec{
 		ExtraEngine: "wire", ExtraRun: "^TestAssembly$", ExtraShards: 2,
 		Engine: "xlate", Run: "^TestFidelity$", Race: false,
 		QuickShards: 16, ThoroughShards: 16, QuickWatchdog: 8 * time.Minute, ThoroughWatchdog: 60 * time.Minute,
-		Level:     "exploration",
-		LevelText: "On random populated messages of every request/response type, for one-to-one mappings including chains (a->b, b->c), prefix/substring/case variants and unmapped names, and for both servers' (request, response) map pairs: after translation everything except namespace-name sites is unchanged (comparison with the name sites blanked, blobs decoded), a message with nothing to map is proto-equal including blob bytes, and request-side followed by response-side translation restores the original; the same for search-attribute keys on admin traffic. Every mapping list over a 4-name alphabet up to length 3 (4369 lists) is fed to the configuration loaders: accepted iff no local and no remote name repeats.",
-		LevelNote: "In-process part. Which map each assembled server actually receives (direction wiring in NewClusterConnection) is observed end to end by the wire engine. Round trips are checked on the only domain on which a bijection on names is invertible: names that are keys of the request map or outside keys and values.",
-		Technique: "runtime monitor: metamorphic oracles (blank-and-compare, round-trip identity, no-op identity) on the real translators over random messages + exhaustive small configuration space",
-		DesignRef: "DESIGN.md §4 C13",
-		Rule:      "cases = blocks of 50 random messages x 4 mappings x 2 servers, + one exhaustive configuration block; distinct = (root type, mapping, server) triples that actually contained a mapped name + distinct configuration lists",
-		Exhaustive: "all namespace / search-attribute mapping lists over {a,b,c,d} of length <= 3",
+		Level:       "exploration",
+		LevelText:   "On random populated messages of every request/response type, for one-to-one mappings including chains (a->b, b->c), prefix/substring/case variants and unmapped names, and for both servers' (request, response) map pairs: after translation everything except namespace-name sites is unchanged (comparison with the name sites blanked, blobs decoded), a message with nothing to map is proto-equal including blob bytes, and request-side followed by response-side translation restores the original; the same for search-attribute keys on admin traffic. Every mapping list over a 4-name alphabet up to length 3 (4369 lists) is fed to the configuration loaders: accepted iff no local and no remote name repeats.",
+		LevelNote:   "In-process part. Which map each assembled server actually receives (direction wiring in NewClusterConnection) is observed end to end by the wire engine. Round trips are checked on the only domain on which a bijection on names is invertible: names that are keys of the request map or outside keys and values.",
+		Technique:   "runtime monitor: metamorphic oracles (blank-and-compare, round-trip identity, no-op identity) on the real translators over random messages + exhaustive small configuration space",
+		DesignRef:   "DESIGN.md §4 C13",
+		Rule:        "cases = blocks of 50 random messages x 4 mappings x 2 servers, + one exhaustive configuration block; distinct = (root type, mapping, server) triples that actually contained a mapped name + distinct configuration lists",
+		Exhaustive:  "all namespace / search-attribute mapping lists over {a,b,c,d} of length <= 3",
 		Assumptions: []string{"oracle's definition of namespace-name sites and search-attribute containers (gen package)"},
 		QuickFloors: map[string]int64{"messages": 5000, "messages_with_mapped_names": 500, "round_trips_ok": 4000, "mapping_lists": 4369},
 		MaxSamples:  2,
@@ -221,13 +222,13 @@ var specs = map[string]Spec{
 		ExtraEngine: "wire", ExtraRun: "^TestAssembly$", ExtraShards: 2,
 		Engine: "xlate", Run: "^TestSA$", Race: false,
 		QuickShards: 16, ThoroughShards: 16, QuickWatchdog: 8 * time.Minute, ThoroughWatchdog: 60 * time.Minute,
-		Level:     "exploration",
-		LevelText: "The real search-attribute translator runs on one message per structural path to a search-attributes container (typed SearchAttributes and bare map<string,Payload>) in every AdminService request/response type, on every container path of a history event placed in every history-blob site, and on random admin messages; expected result from an independent oracle: mapped keys renamed to their counterpart (direction by request/response side), unmapped keys and all payloads untouched, key count preserved. For every WorkflowService method, messages with mapped keys go through the real TranslationInterceptor (MatchMethod consulted as in production) and must come out unchanged.",
-		LevelNote: "Key sets never contain an unmapped key equal to a mapping target (the property's domain). AddSearchAttributesRequest (map<string,IndexedValueType>) and RemoveSearchAttributesRequest ([]string) are not containers in the property's sense; the translator's 'unhandled type' error on them is recorded as an observation in DESIGN.md, not judged.",
-		Technique: "runtime monitor: differential execution of the real search-attribute translator against an independent key-renaming oracle over descriptor-enumerated container paths + random messages",
-		DesignRef: "DESIGN.md §4 C14",
-		Rule:      "cases = one per root type (all container paths, blob x event container paths; exclusion clause for workflow-service types) + random blocks; distinct = (root, path) pairs",
-		Exhaustive: "every structural path (recursion bound 2) to a search-attributes container in AdminService messages, every event container path in every blob site, every WorkflowService method for the exclusion clause",
+		Level:       "exploration",
+		LevelText:   "The real search-attribute translator runs on one message per structural path to a search-attributes container (typed SearchAttributes and bare map<string,Payload>) in every AdminService request/response type, on every container path of a history event placed in every history-blob site, and on random admin messages; expected result from an independent oracle: mapped keys renamed to their counterpart (direction by request/response side), unmapped keys and all payloads untouched, key count preserved. For every WorkflowService method, messages with mapped keys go through the real TranslationInterceptor (MatchMethod consulted as in production) and must come out unchanged.",
+		LevelNote:   "Key sets never contain an unmapped key equal to a mapping target (the property's domain). AddSearchAttributesRequest (map<string,IndexedValueType>) and RemoveSearchAttributesRequest ([]string) are not containers in the property's sense; the translator's 'unhandled type' error on them is recorded as an observation in DESIGN.md, not judged.",
+		Technique:   "runtime monitor: differential execution of the real search-attribute translator against an independent key-renaming oracle over descriptor-enumerated container paths + random messages",
+		DesignRef:   "DESIGN.md §4 C14",
+		Rule:        "cases = one per root type (all container paths, blob x event container paths; exclusion clause for workflow-service types) + random blocks; distinct = (root, path) pairs",
+		Exhaustive:  "every structural path (recursion bound 2) to a search-attributes container in AdminService messages, every event container path in every blob site, every WorkflowService method for the exclusion clause",
 		Assumptions: []string{"oracle's definition of search-attribute containers: fields named search_attributes of type SearchAttributes or map<string,Payload>"},
 		QuickFloors: map[string]int64{"sa_path_cases": 20, "sa_blob_cases": 50, "workflow_service_exclusion_cases": 20, "sa_random_messages": 1500},
 		MaxSamples:  2,
@@ -236,13 +237,13 @@ var specs = map[string]Spec{
 		ExtraEngine: "wire", ExtraRun: "^TestAssembly$", ExtraShards: 2,
 		Engine: "xlate", Run: "^TestACL$", Race: false,
 		QuickShards: 16, ThoroughShards: 16, QuickWatchdog: 8 * time.Minute, ThoroughWatchdog: 60 * time.Minute,
-		Level:     "exploration",
-		LevelText: "For every unary request type of both services and every structural path to a namespace name (also inside every history-blob site), the real interceptors composed in production order (translation, then access control, then a recording handler) are called with that one site naming a forbidden namespace (must be PermissionDenied and the handler not reached) and naming the allowed one (must be forwarded); four variants: no translation, translation with names given in remote form (only a check running after translation decides right), remote-looking-allowed-but-unmapped names, and the translation-bypass header. Random populated requests with all sites allowed and then one flipped cover combinations. ListNamespaces through the real workflow-service handler must return exactly the allowed namespaces (in remote form).",
-		LevelNote: "In-process part: that the assembled inbound server really installs the chain in this order, on both transports, is observed by the wire engine (C15/C16). Empty names are recorded, not judged.",
-		Technique: "runtime monitor: exhaustive path-wise probing of the real interceptor chain with a recording terminal handler (reached / not reached, status code)",
-		DesignRef: "DESIGN.md §4 C16",
-		Rule:      "cases = one per unary method (all paths x 4 variants x {forbidden, allowed}, blob x event paths, random combinations) + ListNamespaces block; distinct = (method, variant, path) triples",
-		Exhaustive: "every structural path (recursion bound 2) to a namespace-name field in every unary request type; every event path in every blob site (quick: all for the translated variant, every second one for the others)",
+		Level:       "exploration",
+		LevelText:   "For every unary request type of both services and every structural path to a namespace name (also inside every history-blob site), the real interceptors composed in production order (translation, then access control, then a recording handler) are called with that one site naming a forbidden namespace (must be PermissionDenied and the handler not reached) and naming the allowed one (must be forwarded); four variants: no translation, translation with names given in remote form (only a check running after translation decides right), remote-looking-allowed-but-unmapped names, and the translation-bypass header. Random populated requests with all sites allowed and then one flipped cover combinations. ListNamespaces through the real workflow-service handler must return exactly the allowed namespaces (in remote form).",
+		LevelNote:   "In-process part: that the assembled inbound server really installs the chain in this order, on both transports, is observed by the wire engine (C15/C16). Empty names are recorded, not judged.",
+		Technique:   "runtime monitor: exhaustive path-wise probing of the real interceptor chain with a recording terminal handler (reached / not reached, status code)",
+		DesignRef:   "DESIGN.md §4 C16",
+		Rule:        "cases = one per unary method (all paths x 4 variants x {forbidden, allowed}, blob x event paths, random combinations) + ListNamespaces block; distinct = (method, variant, path) triples",
+		Exhaustive:  "every structural path (recursion bound 2) to a namespace-name field in every unary request type; every event path in every blob site (quick: all for the translated variant, every second one for the others)",
 		Assumptions: []string{"oracle's definition of namespace-name sites (gen package)"},
 		QuickFloors: map[string]int64{"acl_calls": 3000, "denied": 1400, "forwarded": 1400, "list_namespaces_calls": 300},
 		MaxSamples:  2,
@@ -250,12 +251,12 @@ var specs = map[string]Spec{
 	"C17": {
 		Engine: "utf8", Run: "^TestRepair$", Race: false,
 		QuickShards: 16, ThoroughShards: 16, QuickWatchdog: 8 * time.Minute, ThoroughWatchdog: 60 * time.Minute,
-		Level:     "exploration",
-		LevelText: "Wire bytes are produced from random messages built in the legacy gogo schema (what an old server can emit) and decoded by the real RepairUTF8Codec: (1) valid data, legacy-built and current-schema (with fields the legacy schema does not know), must decode exactly as the standard codec decodes it; (2) invalid byte sequences (lone continuation, truncated, overlong, surrogates, 0xFF runs) in 1-3 failure messages at cause depths 1-10 must decode successfully, with every string valid and the message equal to the same message built with the sanitised text (runs of U+FFFD collapsed, so one-per-run and one-per-byte are both accepted); (3) invalid UTF-8 in any other string field, chains beyond depth 10, truncated and bit-flipped encodings must never come back with a nil error and an invalid string, and must agree with the standard codec's accept/reject verdict. The history-blob repair path is driven through the real namespace translator: a blob it reports success on must decode with the standard decoder and equal the sanitised blob.",
-		LevelNote: "Trusted: gogo marshalling of the legacy structs, the reference decode by google.golang.org/protobuf, the sanitised-twin construction. The oracle never calls strings.ToValidUTF8.",
-		Technique: "runtime monitor: differential decoding (real repair codec vs standard codec on a sanitised twin of the same legacy message), string-validity walk of every result, random + corrupted encodings",
-		DesignRef: "DESIGN.md §4 C17",
-		Rule:      "cases = blocks of 50 random legacy messages, each assigned one of six modes (valid / dirty failures x2 / dirty other string / too-deep chain / garbled), blocks of 100 current-schema messages, one blob-repair block; distinct = (mode, root type) pairs observed",
+		Level:       "exploration",
+		LevelText:   "Wire bytes are produced from random messages built in the legacy gogo schema (what an old server can emit) and decoded by the real RepairUTF8Codec: (1) valid data, legacy-built and current-schema (with fields the legacy schema does not know), must decode exactly as the standard codec decodes it; (2) invalid byte sequences (lone continuation, truncated, overlong, surrogates, 0xFF runs) in 1-3 failure messages at cause depths 1-10 must decode successfully, with every string valid and the message equal to the same message built with the sanitised text (runs of U+FFFD collapsed, so one-per-run and one-per-byte are both accepted); (3) invalid UTF-8 in any other string field, chains beyond depth 10, truncated and bit-flipped encodings must never come back with a nil error and an invalid string, and must agree with the standard codec's accept/reject verdict. The history-blob repair path is driven through the real namespace translator: a blob it reports success on must decode with the standard decoder and equal the sanitised blob.",
+		LevelNote:   "Trusted: gogo marshalling of the legacy structs, the reference decode by google.golang.org/protobuf, the sanitised-twin construction. The oracle never calls strings.ToValidUTF8.",
+		Technique:   "runtime monitor: differential decoding (real repair codec vs standard codec on a sanitised twin of the same legacy message), string-validity walk of every result, random + corrupted encodings",
+		DesignRef:   "DESIGN.md §4 C17",
+		Rule:        "cases = blocks of 50 random legacy messages, each assigned one of six modes (valid / dirty failures x2 / dirty other string / too-deep chain / garbled), blocks of 100 current-schema messages, one blob-repair block; distinct = (mode, root type) pairs observed",
 		Assumptions: []string{"legacy messages are generated by reflection over the proto/1_22 structs; enum values 0..2; depth-bounded"},
 		QuickFloors: map[string]int64{"valid_messages": 2000, "dirty_failure_messages": 300, "repaired_faithfully": 300, "rejected_as_expected": 200, "garbled_encodings": 300, "blob_repairs": 500},
 		MaxSamples:  2,
@@ -263,13 +264,13 @@ var specs = map[string]Spec{
 	"C18": {
 		Engine: "utf8", Run: "^TestReach$", Race: false,
 		QuickShards: 16, ThoroughShards: 16, QuickWatchdog: 8 * time.Minute, ThoroughWatchdog: 60 * time.Minute,
-		Level:     "exploration",
-		LevelText: "For every request/response type that has a legacy counterpart and can reach a failure (21 roots, list committed so that a root dropped from the conversion tables is noticed), every structural path from the legacy struct to a Failure is enumerated by reflection (through pointers, slices, maps, oneof wrappers; each struct type at most twice per path); for each path and cause depth 1, 2, 5, 10 a minimal legacy message with an invalid failure message there is marshalled and decoded by the real codec: it must succeed, every string must be valid, and the result must equal the same message built with the sanitised text; then all paths of the root at once.",
-		LevelNote: "Paths through a oneof pick one wrapper each; the 'all at once' message keeps the last wrapper chosen per oneof slot. Supported depth (10) is the repository's constant, probed at its boundary here and beyond it in C17.",
-		Technique: "runtime monitor: reflection-enumerated structural paths over the legacy schema, one injected fault per path, differential decode against a sanitised twin",
-		DesignRef: "DESIGN.md §4 C18",
-		Rule:      "cases = one per supported root (all its paths x 4 cause depths + all-at-once); distinct = (root, path) pairs; all non-trivial",
-		Exhaustive: "every structural path (recursion bound 2) from every down-convertible root type to a failure message",
+		Level:       "exploration",
+		LevelText:   "For every request/response type that has a legacy counterpart and can reach a failure (21 roots, list committed so that a root dropped from the conversion tables is noticed), every structural path from the legacy struct to a Failure is enumerated by reflection (through pointers, slices, maps, oneof wrappers; each struct type at most twice per path); for each path and cause depth 1, 2, 5, 10 a minimal legacy message with an invalid failure message there is marshalled and decoded by the real codec: it must succeed, every string must be valid, and the result must equal the same message built with the sanitised text; then all paths of the root at once.",
+		LevelNote:   "Paths through a oneof pick one wrapper each; the 'all at once' message keeps the last wrapper chosen per oneof slot. Supported depth (10) is the repository's constant, probed at its boundary here and beyond it in C17.",
+		Technique:   "runtime monitor: reflection-enumerated structural paths over the legacy schema, one injected fault per path, differential decode against a sanitised twin",
+		DesignRef:   "DESIGN.md §4 C18",
+		Rule:        "cases = one per supported root (all its paths x 4 cause depths + all-at-once); distinct = (root, path) pairs; all non-trivial",
+		Exhaustive:  "every structural path (recursion bound 2) from every down-convertible root type to a failure message",
 		Assumptions: []string{"supported roots = request/response types with a registered legacy struct that reach a Failure; the list of 21 such roots is committed (utf8/supported_roots.txt)"},
 		QuickFloors: map[string]int64{"reach_cases": 600, "repaired_ok": 600},
 		MaxSamples:  2,
@@ -278,13 +279,13 @@ var specs = map[string]Spec{
 		ExtraEngine: "wire", ExtraRun: "^TestTLSWire$", ExtraShards: 1,
 		Engine: "tlsmatrix", Run: "^TestMatrix$", Race: false,
 		QuickShards: 8, ThoroughShards: 8, QuickWatchdog: 10 * time.Minute, ThoroughWatchdog: 30 * time.Minute,
-		Level:     "exploration",
-		LevelText: "Real handshakes against the real TLS configurations: the proxy as server (GetServerTLSConfig in a raw TLS listener and inside the real mux receiver) and as client (GetClientTLSConfig in a raw dial and inside the real mux establisher), against every peer credential from an in-process PKI (valid chain, second valid chain, self-signed, self-signed copying the CA's subject, other CA, expired, not yet valid, wrong extended key usage, wrong DNS name, none; the client presents its certificate regardless of the CA hint) x verification on/off x own certificate yes/no. The verdict is taken on the first application round trip (raw) / yamux ping and session registration (mux) observed from both ends, not on Handshake() returning, because a TLS 1.3 client finishes before the server verifies. Admitted iff the credential chains to the configured CA, is within validity, has the right usage (and, client role, matches the configured name); with skipCAVerification everything connects.",
-		LevelNote: "The matrix is exhaustive over the listed credentials and switches (336 rows). CA loaded from file only (no https CA source in the sandbox). An extra pass (wire engine) assembles a ClusterConnection with TLS on the remote-facing TCP server and on the client towards a cluster, and checks with real gRPC calls that only the valid credential is served in either role and that a plaintext client is not - i.e. that the configuration's TLS settings are really installed.",
-		Technique: "runtime monitor: exhaustive credential x configuration matrix of real TLS handshakes, verdict on application data observed at both ends",
-		DesignRef: "DESIGN.md §4 C19",
-		Rule:      "cases = role x embedding x peer credential x verification x own certificate; distinct = rows; all non-trivial",
-		Exhaustive: "the full cross product of 11 peer credentials x 2 roles x 2 embeddings x verification on/off x own certificate yes/no",
+		Level:       "exploration",
+		LevelText:   "Real handshakes against the real TLS configurations: the proxy as server (GetServerTLSConfig in a raw TLS listener and inside the real mux receiver) and as client (GetClientTLSConfig in a raw dial and inside the real mux establisher), against every peer credential from an in-process PKI (valid chain, second valid chain, self-signed, self-signed copying the CA's subject, other CA, expired, not yet valid, wrong extended key usage, wrong DNS name, none; the client presents its certificate regardless of the CA hint) x verification on/off x own certificate yes/no. The verdict is taken on the first application round trip (raw) / yamux ping and session registration (mux) observed from both ends, not on Handshake() returning, because a TLS 1.3 client finishes before the server verifies. Admitted iff the credential chains to the configured CA, is within validity, has the right usage (and, client role, matches the configured name); with skipCAVerification everything connects.",
+		LevelNote:   "The matrix is exhaustive over the listed credentials and switches (336 rows). CA loaded from file only (no https CA source in the sandbox). An extra pass (wire engine) assembles a ClusterConnection with TLS on the remote-facing TCP server and on the client towards a cluster, and checks with real gRPC calls that only the valid credential is served in either role and that a plaintext client is not - i.e. that the configuration's TLS settings are really installed.",
+		Technique:   "runtime monitor: exhaustive credential x configuration matrix of real TLS handshakes, verdict on application data observed at both ends",
+		DesignRef:   "DESIGN.md §4 C19",
+		Rule:        "cases = role x embedding x peer credential x verification x own certificate; distinct = rows; all non-trivial",
+		Exhaustive:  "the full cross product of 11 peer credentials x 2 roles x 2 embeddings x verification on/off x own certificate yes/no",
 		Assumptions: []string{"loopback sockets, real time; a watchdog expiry is inconclusive, never a violation"},
 		QuickFloors: map[string]int64{"handshakes": 150, "admitted": 60, "refused": 60, "assembled_handshakes": 10},
 		MaxSamples:  3,
@@ -292,14 +293,14 @@ var specs = map[string]Spec{
 	"C10": {
 		Engine: "muxsim", Run: "^TestMux$", Race: true,
 		RaceViolation: regexp.MustCompile(`multiMuxManager\)\.(AddConnection|unregisterMux|GetMuxConnections|notifyChange|onClose)`),
-		QuickShards: 16, ThoroughShards: 16, QuickWatchdog: 10 * time.Minute, ThoroughWatchdog: 90 * time.Minute,
-		MaxProcs: []int{16, 4, 2, 1},
-		Level:     "fault_enumeration",
-		LevelText: "The real mux provider, multi-mux manager and managed sessions run over net.Pipe connections handed out by a scripted connection provider in virtual time. Every fault script over seven per-attempt outcomes (dial failure, peer closes at once, peer silent, yamux setup error, peer talks garbage, session dies later, session closed locally) up to a length bound for pool sizes 1-2 and random longer scripts for pools up to 4 are run to heal: the table may never exceed the limit (checked inside the manager's own list-update callback and at the peer), and 90 virtual seconds after the last fault the pool must be at full strength with the provider reporting no free slot, every slot carrying a stream. The lifetime is cancelled at the k-th occurrence of every provider step (before/after NewConnection, before/after session setup, before/after registration): afterwards the manager must report closed, no session may stay registered and every connection ever handed to the provider must have been closed.",
-		LevelNote: "Fault and cancel positions are logical (k-th occurrence of a provider step) and enumerated; the thread interleaving around them is sampled under -race. The scripted provider consumes 3 ms of virtual time per attempt (a real dial/accept blocks; the provider retries without back-off). Real TCP establisher/receiver are exercised by the tlsmatrix and wire engines.",
-		Technique: "runtime monitor + fault injection: scripted connection outcomes and cancellation at enumerated provider steps on the real provider/manager/session in virtual time; limit, permit-conservation, heal and everything-closed oracles; race detector on the session table",
-		DesignRef: "DESIGN.md §4 C10",
-		Rule:      "cases = pool size x fault script [x cancel step kind x occurrence]; distinct = distinct (pool size, script, cancel point) tuples; all non-trivial",
+		QuickShards:   16, ThoroughShards: 16, QuickWatchdog: 10 * time.Minute, ThoroughWatchdog: 90 * time.Minute,
+		MaxProcs:    []int{16, 4, 2, 1},
+		Level:       "fault_enumeration",
+		LevelText:   "The real mux provider, multi-mux manager and managed sessions run over net.Pipe connections handed out by a scripted connection provider in virtual time. Every fault script over seven per-attempt outcomes (dial failure, peer closes at once, peer silent, yamux setup error, peer talks garbage, session dies later, session closed locally) up to a length bound for pool sizes 1-2 and random longer scripts for pools up to 4 are run to heal: the table may never exceed the limit (checked inside the manager's own list-update callback and at the peer), and 90 virtual seconds after the last fault the pool must be at full strength with the provider reporting no free slot, every slot carrying a stream. The lifetime is cancelled at the k-th occurrence of every provider step (before/after NewConnection, before/after session setup, before/after registration): afterwards the manager must report closed, no session may stay registered and every connection ever handed to the provider must have been closed.",
+		LevelNote:   "Fault and cancel positions are logical (k-th occurrence of a provider step) and enumerated; the thread interleaving around them is sampled under -race. The scripted provider consumes 3 ms of virtual time per attempt (a real dial/accept blocks; the provider retries without back-off). Real TCP establisher/receiver are exercised by the tlsmatrix and wire engines.",
+		Technique:   "runtime monitor + fault injection: scripted connection outcomes and cancellation at enumerated provider steps on the real provider/manager/session in virtual time; limit, permit-conservation, heal and everything-closed oracles; race detector on the session table",
+		DesignRef:   "DESIGN.md §4 C10",
+		Rule:        "cases = pool size x fault script [x cancel step kind x occurrence]; distinct = distinct (pool size, script, cancel point) tuples; all non-trivial",
 		Assumptions: []string{"net.Pipe + yamux in a synctest bubble; harness-side peers are yamux clients", "ConnectionWriteTimeout 2 s for the sessions built by the scripted session function"},
 		QuickFloors: map[string]int64{"scripts": 400, "healed_to_full_strength": 200, "cancel_points_hit": 100},
 		MaxSamples:  2,
@@ -307,29 +308,29 @@ var specs = map[string]Spec{
 	"C09": {
 		ExtraEngine: "wire", ExtraRun: "^TestClusterRouting$", ExtraRace: true, ExtraShards: 3,
 		Engine: "gossip", Run: "^TestConvergence$", Race: true,
-		RaceViolation: regexp.MustCompile(`shardManagerImpl\)|shardDelegate\)|shardEventDelegate\)`),
+		RaceViolation: regexp.MustCompile(`shardManagerImpl\)|shardDelegate\)|shardEventDelegate\)`), RaceOnTopFrames: true,
 		QuickShards: 16, ThoroughShards: 16, QuickWatchdog: 10 * time.Minute, ThoroughWatchdog: 60 * time.Minute,
-		Level:     "exploration",
-		LevelText: "Two to three real shard managers are started with their own (isolated) memberlist so that the real delegates and callbacks are installed; the harness is the gossip network: for every subset and time order of competing claims on 1-2 shards it delivers the ownership announcements (built as broadcastShardChange builds them) to every other instance in every permutation, with a duplicate, a full-state merge (LocalState -> MergeRemoteState) and a node-leave inserted, and finally with and without a closing push/pull round. Afterwards each shard must be owned by exactly the instance with the newest live claim, every instance's view of its peers must list the shard only under that owner (after the closing round), and an instance that left must own nothing in any peer's view. The routing clause is probed on the same instances: local stream => delivered locally exactly once; nobody => reported undelivered; local stream closing => reported undelivered; known but unreachable remote owner => reported undelivered and nothing arrives.",
-		LevelNote: "Permutations of deliveries are exhaustive for the listed families (2 instances/1 shard, 3 instances/1 shard, 2 instances/2 shards, up to 7 deliveries); timing between real goroutines is not involved (the delegates are called synchronously by the harness). Forwarding to a reachable remote owner is observed by an extra pass of the wire engine: two assembled proxy instances really joined by memberlist on loopback, each holding half of the shards' streams, both clusters fake; every task whose owner shard lives on the other instance must arrive exactly once on the right shard (routesim recorder) and every source must be acknowledged to its final watermark; the evidence counts messages and acks that crossed between the instances.",
-		Technique: "runtime monitor: harness-as-network permutation of real delegate callbacks on real shard managers; convergence and view oracles; routing-result probes",
-		DesignRef: "DESIGN.md §4 C09",
-		Rule:      "cases = blocks of 200 scenarios (claim order x delivery permutation x {plain, duplicate, merge, leave position}) each run with and without a final sync; distinct = (family, shape, length) classes",
-		Exhaustive: "all delivery permutations of the listed claim families",
+		Level:       "exploration",
+		LevelText:   "Two to three real shard managers are started with their own (isolated) memberlist so that the real delegates and callbacks are installed; the harness is the gossip network: for every subset and time order of competing claims on 1-2 shards it delivers the ownership announcements (built as broadcastShardChange builds them) to every other instance in every permutation, with a duplicate, a full-state merge (LocalState -> MergeRemoteState) and a node-leave inserted, and finally with and without a closing push/pull round. Afterwards each shard must be owned by exactly the instance with the newest live claim, every instance's view of its peers must list the shard only under that owner (after the closing round), and an instance that left must own nothing in any peer's view. The routing clause is probed on the same instances: local stream => delivered locally exactly once; nobody => reported undelivered; local stream closing => reported undelivered; known but unreachable remote owner => reported undelivered and nothing arrives. Reachable remote owner (case peer-stream): a real shard manager opens its intra-proxy stream to a harness peer whose handler accepts k acks and then ends the stream (cleanly / with an error); 'delivered' must mean the peer received the ack exactly once, in particular for acks forwarded in the window - held open at the code's own log point - in which the peer has ended the stream and the instance's receive loop knows it but has not removed the stream yet.",
+		LevelNote:   "Permutations of deliveries are exhaustive for the listed families (2 instances/1 shard, 3 instances/1 shard, 2 instances/2 shards, up to 7 deliveries); timing between real goroutines is not involved (the delegates are called synchronously by the harness). Forwarding to a reachable remote owner is observed by an extra pass of the wire engine: two assembled proxy instances really joined by memberlist on loopback, each holding half of the shards' streams, both clusters fake; every task whose owner shard lives on the other instance must arrive exactly once on the right shard (routesim recorder) and every source must be acknowledged to its final watermark; the evidence counts messages and acks that crossed between the instances. Two start orders: both instances together; late-joiner (instance b joins a running instance a with an empty state and gets its shard streams afterwards, as in a rolling restart). An instance that names a known owner and address but reports the same shard pair undelivered >= 5 times over > 20 s up to the end of the run is a violation; shorter spells while a peer stream is set up are allowed by the statement and only counted.",
+		Technique:   "runtime monitor: harness-as-network permutation of real delegate callbacks on real shard managers; convergence and view oracles; routing-result probes",
+		DesignRef:   "DESIGN.md §4 C09",
+		Rule:        "cases = blocks of 200 scenarios (claim order x delivery permutation x {plain, duplicate, merge, leave position}) each run with and without a final sync; distinct = (family, shape, length) classes",
+		Exhaustive:  "all delivery permutations of the listed claim families",
 		Assumptions: []string{"announcements are delivered at least once to every other live instance (memberlist reliable send)", "registration times are distinct (2 µs apart)"},
-		QuickFloors: map[string]int64{"scenarios": 2000, "routing_probes": 30, "cluster_runs_completed": 1, "messages_forwarded_between_instances": 5},
+		QuickFloors: map[string]int64{"scenarios": 2000, "routing_probes": 50, "termination_windows_held": 4, "cluster_runs_completed": 1, "messages_forwarded_between_instances": 5},
 		MaxSamples:  2,
 	},
 	"C15": {
 		Engine: "wire", Run: "^TestACLWire$", Race: false,
 		QuickShards: 8, ThoroughShards: 16, QuickWatchdog: 10 * time.Minute, ThoroughWatchdog: 60 * time.Minute,
-		Level:     "exploration",
-		LevelText: "A real ClusterConnection is assembled on loopback (TCP inbound server, and mux-server inbound reached over a real yamux session) between two generic fake clusters that accept and record every method of both services. Every method of WorkflowService and AdminService from the service descriptors (154, the streaming one opened as a stream) is called on the remote-facing server, once without and once with the translation-bypass header, workflow methods first and admin methods first (the same server instance serves the whole sequence), under allow-lists {policy with empty lists, all, singletons incl. the two names that exist in both services, random subsets} and under no policy. Oracle: a non-listed admin method and RegisterNamespace/DeprecateNamespace under any policy are answered PermissionDenied and the fake local cluster recorded no call; every other method is forwarded exactly once (or is Unimplemented by the proxy and not forwarded); without a policy nothing is denied; the local-facing server is unaffected.",
-		LevelNote: "Real sockets and real time: a transport error or deadline is inconclusive, never a violation. Requests are empty messages (namespace contents are C16's business).",
-		Technique: "runtime monitor: exhaustive method enumeration against the assembled proxy with a recording fake cluster (call log + status code oracle)",
-		DesignRef: "DESIGN.md §4 C15",
-		Rule:      "cases = (policy/allow-list, transport, call order); each case calls all 154 methods twice (with/without bypass header); distinct = cases",
-		Exhaustive: "every method of both services per case",
+		Level:       "exploration",
+		LevelText:   "A real ClusterConnection is assembled on loopback (TCP inbound server, and mux-server inbound reached over a real yamux session) between two generic fake clusters that accept and record every method of both services. Every method of WorkflowService and AdminService from the service descriptors (154, the streaming one opened as a stream) is called on the remote-facing server, once without and once with the translation-bypass header, workflow methods first and admin methods first (the same server instance serves the whole sequence), under allow-lists {policy with empty lists, all, singletons incl. the two names that exist in both services, random subsets} and under no policy. Oracle: a non-listed admin method and RegisterNamespace/DeprecateNamespace under any policy are answered PermissionDenied and the fake local cluster recorded no call; every other method is forwarded exactly once (or is Unimplemented by the proxy and not forwarded); without a policy nothing is denied; the local-facing server is unaffected.",
+		LevelNote:   "Real sockets and real time: a transport error or deadline is inconclusive, never a violation. Requests are empty messages (namespace contents are C16's business).",
+		Technique:   "runtime monitor: exhaustive method enumeration against the assembled proxy with a recording fake cluster (call log + status code oracle)",
+		DesignRef:   "DESIGN.md §4 C15",
+		Rule:        "cases = (policy/allow-list, transport, call order); each case calls all 154 methods twice (with/without bypass header); distinct = cases",
+		Exhaustive:  "every method of both services per case",
 		Assumptions: []string{"generic fake cluster built on grpc.UnknownServiceHandler with the service descriptors from the registry"},
 		QuickFloors: map[string]int64{"rpcs": 3000, "denied": 500, "forwarded": 1000},
 		MaxSamples:  2,
@@ -337,13 +338,13 @@ var specs = map[string]Spec{
 	"C11": {
 		Engine: "wire", Run: "^TestMuxRPC$", Race: true,
 		RaceViolation: regexp.MustCompile(`MultiClientConn\)|multiMuxManager\)`),
-		QuickShards: 16, ThoroughShards: 16, QuickWatchdog: 10 * time.Minute, ThoroughWatchdog: 90 * time.Minute,
-		Level:     "exploration",
-		LevelText: "The real MultiClientConn is driven by the real GRPCMuxManager (receiver role) over loopback TCP + yamux. Harness peers connect, serve a tagged gRPC server on their session and die on a seeded script (add, kill, flap = die right after establishment, kill all, replace = kill and add at once) while three client goroutines issue RPCs continuously. After every update, at a quiescent point reached by polling state (not by sleeping), the set of registered sessions must equal the number of live peer sessions, the endpoint keys the client connection may dial (MultiClientConn.Describe) must equal the registered keys, and CanMakeCalls must equal 'set non-empty'; a fresh RPC must then succeed if a session is alive and fail with Unavailable/DeadlineExceeded if none is; over the whole history every successful RPC must have been served by a peer whose session was alive during the call.",
-		LevelNote: "Real time and sockets. A state that is still wrong after the live-peer set has been stable for 8 s is a violation by state (stale set); transport hiccups shorter than that are tolerated by polling. gRPC's own balancer is in the loop (round robin over the resolver's endpoints).",
-		Technique: "runtime monitor: state-equality oracle at polled quiescent points + availability probes + served-by-live-session check over the recorded RPC history, race detector",
-		DesignRef: "DESIGN.md §4 C11",
-		Rule:      "cases = seeded update sequences of 14 operations for pool sizes 1-3; distinct = cases; all non-trivial",
+		QuickShards:   16, ThoroughShards: 16, QuickWatchdog: 10 * time.Minute, ThoroughWatchdog: 90 * time.Minute,
+		Level:       "exploration",
+		LevelText:   "The real MultiClientConn is driven by the real GRPCMuxManager (receiver role) over loopback TCP + yamux. Harness peers connect, serve a tagged gRPC server on their session and die on a seeded script (add, kill, flap = die right after establishment, kill all, replace = kill and add at once) while three client goroutines issue RPCs continuously. After every update, at a quiescent point reached by polling state (not by sleeping), the set of registered sessions must equal the number of live peer sessions, the endpoint keys the client connection may dial (MultiClientConn.Describe) must equal the registered keys, and CanMakeCalls must equal 'set non-empty'; a fresh RPC must then succeed if a session is alive and fail with Unavailable/DeadlineExceeded if none is; over the whole history every successful RPC must have been served by a peer whose session was alive during the call.",
+		LevelNote:   "Real time and sockets. A state that is still wrong after the live-peer set has been stable for 8 s is a violation by state (stale set); transport hiccups shorter than that are tolerated by polling. gRPC's own balancer is in the loop (round robin over the resolver's endpoints).",
+		Technique:   "runtime monitor: state-equality oracle at polled quiescent points + availability probes + served-by-live-session check over the recorded RPC history, race detector",
+		DesignRef:   "DESIGN.md §4 C11",
+		Rule:        "cases = seeded update sequences of 14 operations for pool sizes 1-3; distinct = cases; all non-trivial",
 		Assumptions: []string{"peers are yamux clients running a gRPC server on the session; the proxy side is the real receiver provider"},
 		QuickFloors: map[string]int64{"updates": 60, "quiescent_points_checked": 60, "rpcs_ok": 150},
 		MaxSamples:  2,
